@@ -10,7 +10,7 @@ import struct, math, random
 HOSTILE_NUM = [b'99999999999', b'-1', b'2147483647', b'2147483648', b'4294967296', b'1e400', b'nan', b'inf', b'-inf',
                b'0x10', b'', b' ', b'1.', b'.5e', b'1e+', b'12abc', b'+', b'-', b'1e-400', b'0x', b'0x.p1', b'nan(ab_1)',
                b'nan(', b'infinit', b'INFINITY', b'\t 7', b'7 8 9', b'3000000000', b'-3000000000', b'1e10', b'-1e10',
-               b'9223372036854775808', b'-9223372036854775809', b'000000000000000000005', b'512', b'513', b'511', b'510']
+               b'9223372036854775808', b'-9223372036854775809', b'@@%s@@', b'1e30 @@%n@@', b'@@%d@@ 1', b'5 @@%x@@', b'@@%2147483647d@@', b'000000000000000000005', b'512', b'513', b'511', b'510']
 
 DOUBLES = [0.0, -0.0, 1.0, -1.0, 0.5, 1e15, 123456789012345.0, 1e-300, 5e-324, 2.2250738585072014e-308,
            1.7976931348623157e308, 0.1, 1 / 3, 2 / 3, 1e22, 1e23, 9007199254740993.0, 3.141592653589793,
@@ -394,6 +394,59 @@ def hostile_counts_file(rng, binary):
         b += rec(struct.pack('<ii', 0, 0))
     b += b''.join(struct.pack('<d', 9.0) for _ in range(rng.choice([0, 0, 40])))
     return b, true[2], true[0], counts
+
+
+PRINTF_DIRECTIVES = [b'%s', b'%n', b'%x', b'%d', b'%c', b'%2147483647d', b'%%', b'%s%s%s%s%s%s', b'%p', b'%ld', b'%f', b'%hhn', b'%*d', b'%1$s', b'%.3s']
+
+
+def marker(rng):
+    """a printf directive between recognisable delimiters: an error message may quote `@@…@@` verbatim, never expanded"""
+    return b'@@' + rng.choice(PRINTF_DIRECTIVES) + b'@@'
+
+
+def printf_hostile_text(rng):
+    """a text file, well-formed except for one or two lines of a chosen kind (vector entry, int / real suffix entry, table line,
+    suffix name / header, objno line, option / count line) that carry printf directives.  returns (bytes, nvars, ncons, kinds)"""
+    nd, nv = rng.choice([1, 2, 3]), rng.choice([1, 2, 3])
+    L = [('msg', b'solver message'), ('term', b''), ('optshdr', b'Options'), ('opt', b'3'), ('opt', b'1'), ('opt', b'1'), ('opt', b'0'),
+         ('count', b'%d' % nd), ('count', b'%d' % nd), ('count', b'%d' % nv), ('count', b'%d' % nv)]
+    L += [('dual', fmt16(rand_double(rng))) for _ in range(nd)]
+    L += [('primal', fmt16(rand_double(rng))) for _ in range(nv)]
+    L += [('objno', b'objno 0 %d' % rng.choice([0, 100, 567]))]
+    L += [('sufhdr', b'suffix 0 2 8 24 4'), ('sufname', b'sstatus'), ('tabline', b'1 low'), ('tabline', b'2 upp'), ('tabline', b'3 equ'),
+          ('tabline', b'4 btw'), ('ient', b'0 1'), ('ient', b'%d 3' % max(0, nv - 1))]
+    L += [('sufhdr', b'suffix 5 2 5 0 0'), ('sufname', b'dual'), ('rent', b'0 0.5'), ('rent', b'1 -2.25e-07')]
+    L += [('sufhdr', b'suffix 1 1 4 0 0'), ('sufname', b'iis'), ('ient', b'0 7')]
+    kinds = []
+    for _ in range(rng.choice([1, 1, 1, 2])):
+        cat = rng.choice(['dual', 'primal', 'ient', 'ient', 'ient', 'rent', 'rent', 'tabline', 'sufname', 'sufhdr', 'objno', 'objno', 'opt', 'count', 'optshdr', 'msg'])
+        idx = rng.choice([i for i, (c, _) in enumerate(L) if c == cat])
+        old = L[idx][1]
+        D = marker(rng)
+        if cat in ('dual', 'primal'):
+            new = rng.choice([D, b'1.5' + D, b'1e' + D, D + b'2', b'nan' + D, b'inf ' + D, old + b' ' + D])
+        elif cat == 'ient':
+            new = rng.choice([b'0 1e30 ' + D, b'0 1e30' + D, b'0 ' + D, D + b' 3', b'1 5' + D, b'0 -1e30 ' + D, b'0 nan ' + D, b'0 2147483648 ' + D, old + b' ' + D])
+        elif cat == 'rent':
+            new = rng.choice([b'0 1e400' + D, b'0 ' + D, D, b'0 2.5 ' + D, b'99999999999 1 ' + D, old + D])
+        elif cat == 'tabline':
+            new = rng.choice([old + D, D, D * 80, b''])
+        elif cat == 'sufname':
+            new = rng.choice([old + D, D, old[:-1] + D])
+        elif cat == 'sufhdr':
+            new = rng.choice([old + D, b'suffix ' + D, old.replace(b' 2 ', b' ' + D + b' ', 1), old + b' ' + D, b'suffix 0 1 99999999999 0 0 ' + D])
+        elif cat == 'objno':
+            new = rng.choice([b'objno ' + D + b' 0', b'objno 1e30' + D + b' 0', b'objno 0 1e30 ' + D, b'objn' + D, b'objno 0 ' + D, b'objno nan ' + D, old + b' ' + D])
+        elif cat in ('opt', 'count'):
+            new = rng.choice([D, b'77' + D, b'-1' + D, old + D, b'99999999999' + D])
+        elif cat == 'optshdr':
+            new = rng.choice([b'Options' + D, b'O' + D, b'Optio' + D])
+        else:
+            new = D + old
+        L[idx] = (cat, new)
+        kinds.append(cat)
+    eol = rng.choice([b'\n', b'\n', b'\n', b'\r\n'])
+    return b''.join(l + eol for _, l in L), nv, nd, kinds
 
 
 def rand_policy(rng):
